@@ -37,3 +37,7 @@ func init() {
 func init() {
 	prop("TMP-LIMIT", []string{"CONSUMED", "LIMITGATE", "LIMITMAP", "FETCHLOOPEND"}, "temporary grouping while rules are being built", "")
 }
+
+func init() {
+	prop("TMP-WRITERS", []string{"EXECONCE", "WRITEONCE", "PUTKEYFLOW", "DELKEYS", "RMGUARD", "LIMITWRAP"}, "temporary grouping while rules are being built", "")
+}
